@@ -382,6 +382,25 @@ func (d *cnDriver) step() error {
 		}
 		spc := sp
 		metas = append(metas, cnTxMeta{&spc, raw})
+		if sp.Kind == "reclaim" && sp.Validity == "ok" && sp.Amount >= 2 && d.rng.Intn(2) == 0 {
+			// the same delegator reclaims from the same escrow twice in one block: both debonding entries have the same end
+			// epoch and are merged into one
+			twin := sp
+			twin.Amount, sp.Amount = sp.Amount/2, sp.Amount-sp.Amount/2
+			metas[len(metas)-1].spec.Amount = sp.Amount
+			if raw1, err1 := n.buildTx(metas[len(metas)-1].spec, d.rng); err1 == nil {
+				metas[len(metas)-1].raw = raw1
+			} else {
+				return err1
+			}
+			twin.Nonce = sp.Nonce + 1
+			raw2, err2 := n.buildTx(&twin, d.rng)
+			if err2 != nil {
+				return err2
+			}
+			nonceBump[twin.Signer]++
+			metas = append(metas, cnTxMeta{&twin, raw2})
+		}
 	}
 	// keep the documented precondition of C10: nodes re-register before they expire (one node may lapse now and then)
 	epochNow := (h - 1) / n.cfg.EpochInterval
